@@ -146,7 +146,8 @@ func (r refSet) has(k int) bool {
 func (r refSet) String() string { return showSetKeys(append([]int(nil), r...)) }
 
 // Run builds the runner of histories for the concrete set type S with element type K.
-func Run[K comparable, E any, S SetI[K, E, S]](newSet func(items ...K) S, fromKey func(int) K, toKey func(K) int, less func(a, b K) bool) Ops {
+// keySet (optional): the generated <Type>KeySet constructor; every other "new" then builds its set from the keys of a map
+func Run[K comparable, E any, S SetI[K, E, S]](newSet func(items ...K) S, fromKey func(int) K, toKey func(K) int, less func(a, b K) bool, keySet ...func(theMap interface{}) S) Ops {
 	conv := func(ks []int) []K {
 		out := make([]K, len(ks))
 		for i, k := range ks {
@@ -202,7 +203,16 @@ func Run[K comparable, E any, S SetI[K, E, S]](newSet func(items ...K) S, fromKe
 					heap, ref = nil, nil
 				case "new":
 					ks := ParseSetKeys(f[2])
-					alloc(newSet(conv(ks)...), refOf(ks))
+					if len(keySet) > 0 && (len(ks)+idx)%2 == 0 {
+						// the other constructor: from the keys of a map (the empty map included); the set must be usable
+						m := map[K]bool{}
+						for _, k := range conv(ks) {
+							m[k] = true
+						}
+						alloc(keySet[0](m), refOf(ks))
+					} else {
+						alloc(newSet(conv(ks)...), refOf(ks))
+					}
 				case "clone":
 					i := Atoi(f[2])
 					alloc(heap[i].Clone(), append(refSet(nil), ref[i]...))
